@@ -472,7 +472,11 @@ def _get_all_frames_from_exception_obj(exception_obj):
     """
     current_exception = exception_obj
     all_frames = []
-    while current_exception:
+    # A chain can be cyclic (``raise e from e``); visit each exception once, as
+    # the interpreter does when it displays the chain.
+    seen_exceptions = set()
+    while current_exception and id(current_exception) not in seen_exceptions:
+        seen_exceptions.add(id(current_exception))
         traceback = current_exception.__traceback__
         current_tb_frames = []
         while traceback:
